@@ -23,7 +23,7 @@ DECIDING = ['probe_points_fixed', 'probe_points_adaptive', 'euler_rows_compared'
 ASSUMPTIONS = ['delayed variables are state variables of the operator that uses them', 'constant pre-history = declared initial state',
                'adaptive runs: PyRates records accepted steps only, its linear interpolation error is tolerated (2e-3 relative)']
 CASE_TIMEOUT = 300
-FOCUS = ['delayed_edge_adaptive', 'negative_coefficient_on_past', 'edge_delay_exactly_one']
+FOCUS = ['delayed_edge_adaptive', 'negative_coefficient_on_past', 'edge_delay_exactly_one', 'vectorized_parameter_delay']
 
 
 def plan(tier, seed):
@@ -38,6 +38,13 @@ def plan(tier, seed):
     for _ in range(40 if tier == 'quick' else 900):
         cases.append({'family': 'vectorized', 'cseed': rnd.randrange(1 << 30), 'vec_n': rnd.choice([2, 2, 3, 4]),
                       'mode': rnd.choice(['probe_fixed', 'probe_adaptive', 'probe_adaptive', 'euler', 'scipy'])})
+    for _ in range(24 if tier == 'quick' else 500):
+        cases.append({'family': 'vectorized', 'cseed': rnd.randrange(1 << 30), 'vec_n': rnd.choice([2, 3, 3, 4]), 'vec_edges': True,
+                      'mode': rnd.choice(['probe_adaptive', 'probe_adaptive', 'scipy'])})
+    # delays given as named operator constants (past(x, tau_a)), scalar models
+    for _ in range(24 if tier == 'quick' else 500):
+        cases.append({'family': 'param_delays', 'cseed': rnd.randrange(1 << 30),
+                      'mode': rnd.choice(['probe_fixed', 'probe_adaptive', 'probe_adaptive', 'euler', 'scipy'])})
     opened = open_risks(PID)
     k = 10 if tier == 'quick' else 80
     for feat in FOCUS:
@@ -45,6 +52,7 @@ def plan(tier, seed):
         cases += [{'family': fam, 'cseed': rnd.randrange(1 << 30), 'want': feat,
                    'mode': rnd.choice(['probe_adaptive', 'scipy']) if feat == 'delayed_edge_adaptive' else
                    'probe_adaptive' if feat == 'edge_delay_exactly_one' else
+                   rnd.choice(['probe_fixed', 'probe_adaptive']) if feat == 'vectorized_parameter_delay' else
                    rnd.choice(['probe_fixed', 'probe_adaptive', 'euler'])} for _ in range(k)]
     return cases
 
@@ -59,7 +67,7 @@ def warmup(ctx):
     monitors.install()
 
 
-def gen_dde(rnd, want=None, single=False, int_delays=False):
+def gen_dde(rnd, want=None, single=False, int_delays=False, param_delays=False):
     """small DDE spec: 1-2 nodes, each with one operator with 2-3 state variables, delayed terms on some."""
     vals = gen.Vals(rnd)
     ops, nts, nodes = {}, {}, {}
@@ -90,7 +98,13 @@ def gen_dde(rnd, want=None, single=False, int_delays=False):
             for _ in range(nd):
                 dv = rnd.choice(names)
                 tau = rnd.choice(taus)
-                term = E.call('past', E.var(dv), E.num(tau))
+                if param_delays:
+                    # the delay is a named constant of the operator (past(x, tau_a)) instead of a literal
+                    tname = f'tau_{"abc"[taus.index(tau)]}'
+                    vars_[tname] = ['const', tau]
+                    term = E.call('past', E.var(dv), E.var(tname))
+                else:
+                    term = E.call('past', E.var(dv), E.num(tau))
                 neg_ok = want == 'negative_coefficient_on_past'
 
                 def coef():
@@ -128,7 +142,7 @@ def gen_dde(rnd, want=None, single=False, int_delays=False):
             a['delay'] = 1.0     # the value that PyRates also uses internally as its "no delay" marker
         edges.append(['n0/dde_op0/' + s_out, 'n1/dde_op1/u', None, a])
     spec = {'ops': ops, 'node_types': nts, 'edge_types': {}, 'circ': {'name': 'c', 'nodes': nodes, 'subs': {}, 'edges': edges}}
-    info = {'style': style, 'n_delays': n_delays_total, 'nonfirst': nonfirst, 'neg': bool(flags.get('neg')), 'int_delays': bool(int_delays)}
+    info = {'style': style, 'n_delays': n_delays_total, 'nonfirst': nonfirst, 'neg': bool(flags.get('neg')), 'int_delays': bool(int_delays), 'param_delays': bool(param_delays)}
     return spec, info
 
 
@@ -211,16 +225,32 @@ def run_case(case, ctx):
         spec, info = case['spec'], case['info']
     else:
         for _ in range(200):
-            spec, info = gen_dde(rnd, case.get('want'), single=case.get('family') == 'vectorized',
-                                 int_delays=case.get('mode', '').startswith('probe') and rnd.random() < 0.2)
+            wantv = case.get('want') == 'vectorized_parameter_delay'
+            pd_ = wantv or (case.get('family') == 'param_delays')
+            spec, info = gen_dde(rnd, case.get('want'), single=case.get('family') == 'vectorized' or wantv,
+                                 int_delays=case.get('mode', '').startswith('probe') and rnd.random() < 0.2 and not pd_,
+                                 param_delays=pd_)
             if info['n_delays'] >= 1 and (case.get('want') != 'negative_coefficient_on_past' or info['neg']):
                 break
-        if case.get('family') == 'vectorized':
+        if case.get('family') == 'vectorized' or wantv:
             # replicate the node: same operator, unique initial values (and, half of the time, unique constants) per node
-            N = case['vec_n']
+            N = case.get('vec_n') or rnd.choice([1, 2, 3])
             spec['circ']['nodes'] = {f'n{i}': 'nt0' for i in range(N)}
-            spec = gen.individualize(spec, rnd, params=rnd.choice(['different', 'equal']))
+            spec = gen.individualize(spec, rnd, params='different' if wantv else rnd.choice(['different', 'equal']))
             info['vec_n'] = N
+            if case.get('family') == 'vectorized' and case.get('vec_edges') and N >= 2:
+                # delayed edges between the merged nodes (adaptive solvers read them through hist as well)
+                s_out = [v for v, d in spec['ops']['dde_op0']['vars'].items() if d[0] == 'out'][0]
+                pairs = [(i, j) for i in range(N) for j in range(N) if i != j]
+                rnd.shuffle(pairs)
+                used_t = set()
+                for (i, j) in pairs:
+                    if j in used_t or rnd.random() < 0.3:
+                        continue
+                    used_t.add(j)
+                    spec['circ']['edges'].append([f'n{i}/dde_op0/{s_out}', f'n{j}/dde_op0/u', None,
+                                                  {'weight': round(rnd.uniform(0.3, 1.9), 3), 'delay': round(rnd.uniform(0.004, 0.03), 4)}])
+                info['vec_edges'] = len(spec['circ']['edges'])
     mode = case['mode']
     E.PAST_STYLE[0] = info['style']
     E.INT_DELAY_STYLE[0] = bool(info.get('int_delays'))
@@ -231,6 +261,10 @@ def run_case(case, ctx):
         risk.append('delayed_edge_adaptive')
     if any(e['delay'] and float(e['delay']) == 1.0 for e in ref.edges):
         risk.append('edge_delay_exactly_one')
+    if info.get('vec_n') and info.get('param_delays'):
+        risk.append('vectorized_parameter_delay')
+    if info.get('vec_edges'):
+        mech['vectorized_delayed_edges'] = 1
     if info.get('neg'):
         risk.append('negative_coefficient_on_past')
     res = {'features': [mode, info['style'], f"delays{min(info['n_delays'], 4)}"], 'risk': risk,
@@ -243,6 +277,9 @@ def run_case(case, ctx):
         mech['multi_delay_models'] = 1
     dt = 1e-3
     vec = bool(info.get('vec_n'))
+    if info.get('param_delays'):
+        mech['parameter_delays'] = 1
+        res['features'].append('param_delays')
     if vec:
         mech['vectorized_models'] = 1
         res['features'].append(f"vec{info['vec_n']}")
